@@ -469,6 +469,14 @@ def plan_c08(K, ctx):
             with open(cmds, "w", encoding="utf-8") as g:
                 for _ in range(len(pool[fmt]) // 3):
                     g.write(json.dumps({"op": op, "fmt": fmt, "inputs": [r2.choice(pool[fmt]) for _ in range(r2.randint(2, 8) if r2.random() < 0.93 else r2.choice([16, 17, 32, 33, 64, 65]))], "rand": True}, ensure_ascii=False) + "\n")
+                # long batches of long (deeply nested, mostly failing) inputs followed by short well-formed ones: whatever a failed
+                # parse leaves behind accumulates over the batch
+                longs = [x for x in pool[fmt] if len(x) > 110] or pool[fmt]
+                shorts = [x for x in pool[fmt] if len(x) < 25] or pool[fmt]
+                for _ in range(12 if ctx.tier == "quick" else 120):
+                    k = r2.choice(longs)
+                    g.write(json.dumps({"op": op, "fmt": fmt, "inputs": [k if r2.random() < 0.7 else r2.choice(longs) for _ in range(r2.choice([40, 64, 80]))] + [r2.choice(shorts) for _ in range(4)],
+                                        "rand": True}, ensure_ascii=False) + "\n")
             K.account(ctx, cmds, nontrivial)
             K.run_exec(ctx, cmds, obs)
             K.run_judge(ctx, judge, fmt, obs, f"{tag}_{fmt}_judge", shards=4 if ctx.tier == "thorough" else 2)
